@@ -683,7 +683,7 @@ func init() {
 		Bubble: true,
 		Cases: func(tier string) int {
 			if tier == "thorough" {
-				return 24000
+				return 80000
 			}
 
 			return 1200
